@@ -253,8 +253,12 @@ def write_evidence(pid, coverage, t0, violations=0, level="proof", assumptions=N
         "property_id": pid, "tier": TIER if TIER in ("quick", "thorough") else "quick", "seed": SEED, "level": level,
         "coverage": coverage, "assumptions": assumptions or [], "wall_s": round(time.time() - t0, 2), "violations": violations,
     }
-    os.makedirs(os.path.join(VERIF, "evidence"), exist_ok=True)
-    with open(os.path.join(VERIF, "evidence", pid + ".json"), "w") as fh:
+    # evidence/ is what gets committed: it must come from runs against /repo itself; a run against another tree
+    # (VERIF_REPO = a scratch worktree with a seeded change) leaves its evidence in the build directory instead
+    evdir = os.path.join(VERIF, "evidence") if os.path.realpath(REPO) == "/repo" else os.path.join(BUILD, "evidence")
+    ev["repo"] = os.path.realpath(REPO)
+    os.makedirs(evdir, exist_ok=True)
+    with open(os.path.join(evdir, pid + ".json"), "w") as fh:
         json.dump(ev, fh, indent=1, sort_keys=True)
     return ev
 
